@@ -41,11 +41,11 @@ pub fn check_entry(s: u32, e: u32, single: bool, cp: u32, st: &mut Stats) {
             cp <= en,
             cp > en,
             cp >= en,
-            cp == en,
+            (cp == en, en != cp, cp != en),
         )
     });
-    st.evaluations += 12;
-    st.traces += 12;
+    st.evaluations += 14;
+    st.traces += 14;
     let o = ord_ref(s, e, cp);
     let exp = (
         Some(o),
@@ -59,7 +59,7 @@ pub fn check_entry(s: u32, e: u32, single: bool, cp: u32, st: &mut Stats) {
         o.reverse() != Ordering::Greater,
         o.reverse() == Ordering::Greater,
         o.reverse() != Ordering::Less,
-        o == Ordering::Equal,
+        (o == Ordering::Equal, o != Ordering::Equal, o != Ordering::Equal),
     );
     match r {
         Err(p) => st.violation("panic", case, format!("{:?}", exp), format!("PANIC({})", p)),
@@ -68,7 +68,7 @@ pub fn check_entry(s: u32, e: u32, single: bool, cp: u32, st: &mut Stats) {
                 st.violation(
                     "operators",
                     case,
-                    format!("(partial_cmp,<,<=,>,>=,==, mirrored...) = {:?}", exp),
+                    format!("(partial_cmp,<,<=,>,>=,==, the same mirrored, !=, mirrored !=) = {:?}", exp),
                     format!("{:?}", got),
                 );
             }
@@ -146,6 +146,12 @@ fn window(tier: Tier) -> (Vec<u32>, usize) {
     v.extend((u32::MAX - w)..=u32::MAX);
     // a few values around the Unicode boundary as well
     v.extend([0x10FFFE, 0x10FFFF, 0x110000, 0x7FFFFFFF, 0x80000000]);
+    // every power of two with its neighbours (a comparison done in a narrower or a signed type
+    // goes wrong where the value crosses that type's range)
+    for k in 7..32u32 {
+        let p = 1u32 << k;
+        v.extend([p - 1, p, p + 1]);
+    }
     v.sort_unstable();
     v.dedup();
     (v, tier.pick(10, 13))
@@ -191,8 +197,8 @@ pub fn run(_env: &Env, run: &Run) -> (Stats, Coverage) {
     st.sample(json!({"entry": format!("Single({})", u32::MAX), "cp": u32::MAX - 1, "expected": "Greater"}));
     st.sample(json!({"table": "[Single(0), Range(2..=4), Single(5)]", "probe": 3, "expected": "binary_search_by(partial_cmp) finds index 1"}));
     let cov = Coverage {
-        rule: format!("state = (entry, code point): every Single(v) and Range(s..=e), s<=e, over the value window V x every cp in V x 12 operator forms, oracle = trichotomy by definition; plus every strictly increasing non-overlapping table over a {}-slot window at three bases x every probe in window+-2 through the library's own binary_search_by(partial_cmp().unwrap()); non-trivial = entry/cp pairs other than Single(v) vs v", slots),
-        alphabet: json!({"V": format!("0..={} , u32::MAX-{}..=u32::MAX, 0x10FFFE,0x10FFFF,0x110000,0x7FFFFFFF,0x80000000", run.tier.pick(12, 40), run.tier.pick(12, 40)), "entries": nentries, "tables": ntables}),
+        rule: format!("state = (entry, code point): every Single(v) and Range(s..=e), s<=e, over the value window V x every cp in V x 14 operator forms (partial_cmp, <, <=, >, >=, ==, != in both directions), oracle = trichotomy by definition; plus every strictly increasing non-overlapping table over a {}-slot window at three bases x every probe in window+-2 through the library's own binary_search_by(partial_cmp().unwrap()); non-trivial = entry/cp pairs other than Single(v) vs v", slots),
+        alphabet: json!({"V": format!("0..={} , u32::MAX-{}..=u32::MAX, 0x10FFFE,0x10FFFF,0x110000, 2^k-1, 2^k, 2^k+1 for k = 7..31", run.tier.pick(12, 40), run.tier.pick(12, 40)), "entries": nentries, "tables": ntables}),
         bound_completed: format!("|V|={} values, {} entries, {} tables of {} slots", v.len(), nentries, ntables, slots),
         exhaustive: true,
         assumptions: vec!["the window contains every relative position of cp to start/end and both extremes of u32; comparisons are pure functions of (start,end,cp)".into()],
